@@ -12,10 +12,10 @@ import (
 // compiler/compiler.go with the kind of operand bytes passed; the bodies of patchJump, calcBackwardJump,
 // placeholder, encode, makeConstant (normalised text) and the guards they contain.
 
-func normText(n ast.Node) string { return strings.Join(strings.Fields(exprStr(n)), " ") }
+func opcNormText(n ast.Node) string { return strings.Join(strings.Fields(exprStr(n)), " ") }
 
-// isCallTo recognises `recv.name(args…)` and returns the call
-func isCallTo(e ast.Expr, recv, name string) (*ast.CallExpr, bool) {
+// opcIsCallTo recognises `recv.name(args…)` and returns the call
+func opcIsCallTo(e ast.Expr, recv, name string) (*ast.CallExpr, bool) {
 	c, ok := e.(*ast.CallExpr)
 	if !ok {
 		return nil, false
@@ -32,7 +32,7 @@ func isCallTo(e ast.Expr, recv, name string) (*ast.CallExpr, bool) {
 	return c, ok && id.Name == recv
 }
 
-func opcodeConstBlock() []string {
+func opcOpcodeConstBlock() []string {
 	f := parseFile("vm/opcodes.go")
 	var names []string
 	blocks := 0
@@ -69,8 +69,8 @@ func opcodeConstBlock() []string {
 	return names
 }
 
-// dispatchSwitch finds `switch op { … }` inside the `for vm.ip < len(vm.bytecode)` loop of (*VM).Run
-func dispatchSwitch(fd *ast.FuncDecl) *ast.SwitchStmt {
+// opcDispatchSwitch finds `switch op { … }` inside the `for vm.ip < len(vm.bytecode)` loop of (*VM).Run
+func opcDispatchSwitch(fd *ast.FuncDecl) *ast.SwitchStmt {
 	var loop *ast.ForStmt
 	for _, st := range fd.Body.List {
 		if fs, ok := st.(*ast.ForStmt); ok {
@@ -80,7 +80,7 @@ func dispatchSwitch(fd *ast.FuncDecl) *ast.SwitchStmt {
 			loop = fs
 		}
 	}
-	if loop == nil || normText(loop.Cond) != "vm.ip < len(vm.bytecode)" || loop.Init != nil || loop.Post != nil {
+	if loop == nil || opcNormText(loop.Cond) != "vm.ip < len(vm.bytecode)" || loop.Init != nil || loop.Post != nil {
 		refuse(fd.Pos(), "(*VM).Run: dispatch loop `for vm.ip < len(vm.bytecode)` not found")
 	}
 	var sw *ast.SwitchStmt
@@ -94,7 +94,7 @@ func dispatchSwitch(fd *ast.FuncDecl) *ast.SwitchStmt {
 			continue
 		}
 		if sw == nil {
-			pre = append(pre, normText(st))
+			pre = append(pre, opcNormText(st))
 		}
 	}
 	if sw == nil || exprStr(sw.Tag) != "op" {
@@ -115,41 +115,41 @@ func dispatchSwitch(fd *ast.FuncDecl) *ast.SwitchStmt {
 	return sw
 }
 
-type reads struct{ arg, constant, constIndex int }
+type opcReads struct{ arg, constant, constIndex int }
 
-func countReads(body []ast.Stmt) reads {
-	var r reads
+func opcCountReads(body []ast.Stmt) opcReads {
+	var r opcReads
 	for _, st := range body {
 		ast.Inspect(st, func(n ast.Node) bool {
 			switch x := n.(type) {
 			case *ast.IndexExpr:
 				if exprStr(x.X) == "vm.constants" {
-					if _, ok := isCallTo(x.Index, "vm", "arg"); ok {
+					if _, ok := opcIsCallTo(x.Index, "vm", "arg"); ok {
 						r.constIndex++
 						return false
 					}
 					refuse(x.Pos(), "vm.constants indexed by something other than vm.arg(): %s", exprStr(x))
 				}
 			case *ast.CallExpr:
-				if _, ok := isCallTo(x, "vm", "arg"); ok {
+				if _, ok := opcIsCallTo(x, "vm", "arg"); ok {
 					r.arg++
 				}
-				if _, ok := isCallTo(x, "vm", "constant"); ok {
+				if _, ok := opcIsCallTo(x, "vm", "constant"); ok {
 					r.constant++
 				}
 			case *ast.SelectorExpr:
 				if id, ok := x.X.(*ast.Ident); ok && id.Name == "vm" && (x.Sel.Name == "bytecode") {
-					refuse(x.Pos(), "opcode body reads vm.bytecode directly")
+					refuse(x.Pos(), "opcode body opcReads vm.bytecode directly")
 				}
 			case *ast.ForStmt, *ast.RangeStmt:
 				// an operand read inside a loop would be read a data-dependent number of times
 				inner := 0
 				ast.Inspect(n, func(m ast.Node) bool {
 					if c, ok := m.(*ast.CallExpr); ok {
-						if _, ok := isCallTo(c, "vm", "arg"); ok {
+						if _, ok := opcIsCallTo(c, "vm", "arg"); ok {
 							inner++
 						}
-						if _, ok := isCallTo(c, "vm", "constant"); ok {
+						if _, ok := opcIsCallTo(c, "vm", "constant"); ok {
 							inner++
 						}
 					}
@@ -165,23 +165,23 @@ func countReads(body []ast.Stmt) reads {
 	return r
 }
 
-// resolveOperand classifies the variadic operand expression of an emit call
-func resolveOperand(fd *ast.FuncDecl, cf *ast.File, e ast.Expr) string {
+// opcResolveOperand classifies the variadic operand expression of an emit call
+func opcResolveOperand(fd *ast.FuncDecl, cf *ast.File, e ast.Expr) string {
 	switch x := e.(type) {
 	case *ast.CallExpr:
-		if _, ok := isCallTo(x, "c", "placeholder"); ok {
+		if _, ok := opcIsCallTo(x, "c", "placeholder"); ok {
 			if len(x.Args) != 0 {
 				refuse(x.Pos(), "placeholder with arguments")
 			}
 			return "placeholder"
 		}
-		if _, ok := isCallTo(x, "c", "makeConstant"); ok {
+		if _, ok := opcIsCallTo(x, "c", "makeConstant"); ok {
 			return "constant"
 		}
-		if _, ok := isCallTo(x, "c", "calcBackwardJump"); ok {
+		if _, ok := opcIsCallTo(x, "c", "calcBackwardJump"); ok {
 			return "backjump"
 		}
-		if c, ok := isCallTo(x, "", "encode"); ok {
+		if c, ok := opcIsCallTo(x, "", "encode"); ok {
 			if len(c.Args) == 1 {
 				if bl, ok := c.Args[0].(*ast.BasicLit); ok && bl.Kind == token.INT {
 					return "encode:" + bl.Value
@@ -189,7 +189,7 @@ func resolveOperand(fd *ast.FuncDecl, cf *ast.File, e ast.Expr) string {
 			}
 			refuse(x.Pos(), "encode(…) operand is not an integer literal: %s", exprStr(x))
 		}
-		if _, ok := isCallTo(x, "c", "emitLoop"); ok {
+		if _, ok := opcIsCallTo(x, "c", "emitLoop"); ok {
 			// emitLoop returns one of its makeConstant results
 			el := funcDecl(cf, "*compiler", "emitLoop")
 			var ret ast.Expr
@@ -204,7 +204,7 @@ func resolveOperand(fd *ast.FuncDecl, cf *ast.File, e ast.Expr) string {
 			if ret == nil {
 				refuse(el.Pos(), "emitLoop: no top-level return")
 			}
-			return resolveOperand(el, cf, ret)
+			return opcResolveOperand(el, cf, ret)
 		}
 	case *ast.Ident:
 		// a local defined by `name := <call>` in the enclosing function (closures included); every
@@ -228,9 +228,9 @@ func resolveOperand(fd *ast.FuncDecl, cf *ast.File, e ast.Expr) string {
 		if len(defs) == 0 {
 			refuse(x.Pos(), "operand variable %s is never assigned", x.Name)
 		}
-		kind := resolveOperand(fd, cf, defs[0])
+		kind := opcResolveOperand(fd, cf, defs[0])
 		for _, d := range defs[1:] {
-			if k := resolveOperand(fd, cf, d); k != kind {
+			if k := opcResolveOperand(fd, cf, d); k != kind {
 				refuse(d.Pos(), "operand variable %s holds operands of different kinds (%s, %s)", x.Name, kind, k)
 			}
 		}
@@ -240,8 +240,8 @@ func resolveOperand(fd *ast.FuncDecl, cf *ast.File, e ast.Expr) string {
 	return ""
 }
 
-// opNamesOf resolves the first argument of c.emit: a constant OpX, or a local assigned only OpX constants
-func opNamesOf(fd *ast.FuncDecl, e ast.Expr, isOp map[string]bool) []string {
+// opcOpNamesOf resolves the first argument of c.emit: a constant OpX, or a local assigned only OpX constants
+func opcOpNamesOf(fd *ast.FuncDecl, e ast.Expr, isOp map[string]bool) []string {
 	id, ok := e.(*ast.Ident)
 	if !ok {
 		refuse(e.Pos(), "emit: opcode argument is not an identifier: %s", exprStr(e))
@@ -277,7 +277,7 @@ func genOpcodes() string {
 	sb.WriteString("import ExprModel.Code.Instr\nnamespace ExprModel.Gen\n\n")
 
 	// 1. numbering
-	names := opcodeConstBlock()
+	names := opcOpcodeConstBlock()
 	isOp := map[string]bool{}
 	for _, n := range names {
 		isOp[n] = true
@@ -287,20 +287,20 @@ func genOpcodes() string {
 	// 2. VM dispatch
 	vf := parseFile("vm/vm.go")
 	run := funcDecl(vf, "*VM", "Run")
-	sw := dispatchSwitch(run)
+	sw := opcDispatchSwitch(run)
 	var rows []string
 	hasDefaultPanic := false
 	seen := map[string]bool{}
 	for _, cc := range sw.Body.List {
 		c := cc.(*ast.CaseClause)
 		if c.List == nil {
-			if len(c.Body) == 1 && strings.HasPrefix(normText(c.Body[0]), "panic(") {
+			if len(c.Body) == 1 && strings.HasPrefix(opcNormText(c.Body[0]), "panic(") {
 				hasDefaultPanic = true
 				continue
 			}
 			refuse(c.Pos(), "dispatch default is not a single panic")
 		}
-		r := countReads(c.Body)
+		r := opcCountReads(c.Body)
 		for _, e := range c.List {
 			id, ok := e.(*ast.Ident)
 			if !ok || !isOp[id.Name] {
@@ -316,8 +316,8 @@ func genOpcodes() string {
 	fmt.Fprintf(&sb, "/-- per `case` of the dispatch switch in (*VM).Run: (opcode, #`vm.arg()`, #`vm.constant()`, #`vm.constants[vm.arg()]`) -/\n")
 	fmt.Fprintf(&sb, "def vmReads : List (String × Nat × Nat × Nat) := [\n  %s]\n", strings.Join(rows, ",\n  "))
 	fmt.Fprintf(&sb, "def vmDefaultPanics : Bool := %v\n", hasDefaultPanic)
-	fmt.Fprintf(&sb, "def vmArgBody : String := %s\n", leanStr(normText(funcDecl(vf, "*VM", "arg").Body)))
-	fmt.Fprintf(&sb, "def vmConstantBody : String := %s\n\n", leanStr(normText(funcDecl(vf, "*VM", "constant").Body)))
+	fmt.Fprintf(&sb, "def vmArgBody : String := %s\n", leanStr(opcNormText(funcDecl(vf, "*VM", "arg").Body)))
+	fmt.Fprintf(&sb, "def vmConstantBody : String := %s\n\n", leanStr(opcNormText(funcDecl(vf, "*VM", "constant").Body)))
 
 	// 3. Disassemble
 	pf := parseFile("vm/program.go")
@@ -338,7 +338,7 @@ func genOpcodes() string {
 			if len(x.Lhs) == 1 && len(x.Rhs) == 1 {
 				if id, ok := x.Lhs[0].(*ast.Ident); ok {
 					if fl, ok := x.Rhs[0].(*ast.FuncLit); ok && (classes[id.Name] || id.Name == "readArg") {
-						closures[id.Name] = normText(fl.Body)
+						closures[id.Name] = opcNormText(fl.Body)
 					}
 				}
 			}
@@ -427,7 +427,7 @@ func genOpcodes() string {
 		ast.Inspect(fd.Body, func(n ast.Node) bool {
 			switch x := n.(type) {
 			case *ast.CallExpr:
-				if c, ok := isCallTo(x, "c", "patchJump"); ok {
+				if c, ok := opcIsCallTo(x, "c", "patchJump"); ok {
 					if len(c.Args) != 1 {
 						refuse(c.Pos(), "patchJump arity")
 					}
@@ -437,7 +437,7 @@ func genOpcodes() string {
 					}
 					patchedVars[id.Name] = true
 				}
-				c, ok := isCallTo(x, "c", "emit")
+				c, ok := opcIsCallTo(x, "c", "emit")
 				if !ok {
 					return true
 				}
@@ -452,15 +452,15 @@ func genOpcodes() string {
 					if !c.Ellipsis.IsValid() {
 						refuse(c.Pos(), "emit operand passed without `...`")
 					}
-					kind = resolveOperand(fd, cf, c.Args[1])
+					kind = opcResolveOperand(fd, cf, c.Args[1])
 				}
-				for _, op := range opNamesOf(fd, c.Args[0], isOp) {
+				for _, op := range opcOpNamesOf(fd, c.Args[0], isOp) {
 					sites = append(sites, fmt.Sprintf("(%s, %s, %s)", leanStr(op), leanStr(kind), leanStr(fd.Name.Name)))
 				}
 			case *ast.AssignStmt:
 				if len(x.Lhs) == 1 && len(x.Rhs) == 1 {
-					if c, ok := isCallTo(x.Rhs[0], "c", "emit"); ok && len(c.Args) == 2 {
-						if _, ok := isCallTo(c.Args[1], "c", "placeholder"); ok {
+					if c, ok := opcIsCallTo(x.Rhs[0], "c", "emit"); ok && len(c.Args) == 2 {
+						if _, ok := opcIsCallTo(c.Args[1], "c", "placeholder"); ok {
 							id, ok := x.Lhs[0].(*ast.Ident)
 							if !ok {
 								refuse(x.Pos(), "placeholder position stored in a non-variable")
@@ -470,8 +470,8 @@ func genOpcodes() string {
 					}
 				}
 			case *ast.ExprStmt:
-				if c, ok := isCallTo(x.X, "c", "emit"); ok && len(c.Args) == 2 {
-					if _, ok := isCallTo(c.Args[1], "c", "placeholder"); ok {
+				if c, ok := opcIsCallTo(x.X, "c", "emit"); ok && len(c.Args) == 2 {
+					if _, ok := opcIsCallTo(c.Args[1], "c", "placeholder"); ok {
 						refuse(x.Pos(), "placeholder emitted and its position discarded")
 					}
 				}
@@ -483,7 +483,7 @@ func genOpcodes() string {
 		for v := range placeholderVars {
 			vs = append(vs, v)
 		}
-		sortStrings(vs)
+		opcSortStrings(vs)
 		for _, v := range vs {
 			patched = append(patched, fmt.Sprintf("(%s, %s, %v)", leanStr(fd.Name.Name), leanStr(v), patchedVars[v]))
 		}
@@ -496,7 +496,7 @@ func genOpcodes() string {
 	// 5. bodies and guards
 	body := func(recv, name string) (string, *ast.FuncDecl) {
 		fd := funcDecl(cf, recv, name)
-		return normText(fd.Body), fd
+		return opcNormText(fd.Body), fd
 	}
 	pj, pjd := body("*compiler", "patchJump")
 	cb, cbd := body("*compiler", "calcBackwardJump")
@@ -518,14 +518,14 @@ func genOpcodes() string {
 			if !ok || is.Else != nil || is.Init != nil || len(is.Body.List) != 1 {
 				return true
 			}
-			if !strings.HasPrefix(normText(is.Body.List[0]), "panic(") {
+			if !strings.HasPrefix(opcNormText(is.Body.List[0]), "panic(") {
 				return true
 			}
 			if strings.Contains(exprStr(is.Cond), "math.MaxUint16") {
 				if g != "" {
 					refuse(is.Pos(), "%s: two MaxUint16 guards", fd.Name.Name)
 				}
-				g = normText(is.Cond)
+				g = opcNormText(is.Cond)
 			}
 			return true
 		})
@@ -551,7 +551,7 @@ func genOpcodes() string {
 	recovers := false
 	if len(comp.Body.List) > 0 {
 		if ds, ok := comp.Body.List[0].(*ast.DeferStmt); ok {
-			t := normText(ds)
+			t := opcNormText(ds)
 			recovers = strings.Contains(t, "recover()") && strings.Contains(t, "err = fmt.Errorf")
 		}
 	}
@@ -560,7 +560,7 @@ func genOpcodes() string {
 	return sb.String()
 }
 
-func sortStrings(xs []string) {
+func opcSortStrings(xs []string) {
 	for i := 1; i < len(xs); i++ {
 		for j := i; j > 0 && xs[j] < xs[j-1]; j-- {
 			xs[j], xs[j-1] = xs[j-1], xs[j]
